@@ -586,12 +586,6 @@ func (v *View) checkC18(res *Result) {
 	}
 	mi := 0
 	lastOwnerChange := map[string]time.Duration{}
-	okStart := map[int]bool{}
-	for _, a := range v.APIs {
-		if a.API == "Start" && a.Result == "ok" {
-			okStart[a.Call] = true
-		}
-	}
 	for idx, e := range v.Ev {
 		for mi < len(v.Muts) && v.Muts[mi].Seq <= idx {
 			m := v.Muts[mi]
@@ -625,10 +619,11 @@ func (v *View) checkC18(res *Result) {
 			}
 			lastTo[e.Inst] = e.To
 			res.Obs["c18.state."+e.To]++
-		case "api.call":
-			if e.API == "Start" && okStart[idx] {
-				// a successful Start sets CANDIDATE without recording a transition
-				// (Start holds the election mutex, so no transition interleaves with it)
+		case "log":
+			if e.Msg == "election_started" {
+				// a successful Start sets CANDIDATE without recording a transition; it logs this
+				// line while holding the election mutex, so no transition interleaves (the
+				// api.call event itself may precede another call's critical section)
 				lastTo[e.Inst] = "CANDIDATE"
 			}
 		case "quiescent":
